@@ -409,7 +409,8 @@ def _replay_native(text: str, w: dict, twin=None) -> Dict[str, Any]:
 
 
 # programs of the common subset --------------------------------------------------------------------------------
-F_ATOMS = [Var('X'), Var('X', off=-1), Var('Z', off=1), Var('Y', off=-1), Var('alpha_1', 'p'), Var('e', 'e'), Num('2'), Num('0.5'), Num('0.1'), Num('3')]
+F_ATOMS = [Var('X'), Var('X', off=-1), Var('Z', off=1), Var('Y', off=-1), Var('alpha_1', 'p'), Var('e', 'e'), Num('2'), Num('0.5'), Num('0.1'), Num('3'),
+           Num('.7'), Num('1.'), Num('10.25')]   # every spelling of a literal Python accepts (seeded change C07_mut1: '.7')
 F_CALLS1 = ['exp', 'log', 'abs']
 
 
